@@ -13,3 +13,6 @@ CONSTANTS
   DotNameHandled = FALSE
   RpcPosCheckedFirst = FALSE
   Utf8LabelsHandled = FALSE
+  SetupShapes = {"uri"}
+  AddrShapes = {"uri"}
+  AddrParsedUnchecked = FALSE
